@@ -42,6 +42,14 @@ func SetE(o, k, e N) N {
 }
 func Del(o N, p string) N { return N{"dl(" + o.SX + "," + p + ")", "(delete " + o.JS + "." + p + ")"} }
 func DelV(x string) N { return N{"dlv(" + x + ")", "(delete " + x + ")"} }
+
+// DelX is delete (e) for an e that is not a reference (a conditional, a comma expression).
+func DelX(e N) N { return N{"dlx(" + e.SX + ")", "(delete (" + e.JS + "))"} }
+
+// Cond is (t ? a : b).
+func Cond(t, a, b N) N {
+	return N{"cnd(" + t.SX + "," + a.SX + "," + b.SX + ")", "(" + t.JS + " ? " + a.JS + " : " + b.JS + ")"}
+}
 func DelE(o, k N) N {
 	return N{"dle(" + o.SX + "," + k.SX + ")", "(delete " + o.JS + "[" + k.JS + "])"}
 }
